@@ -232,7 +232,7 @@ fn grid() -> Vec<Case> {
     for &n in harness::lens::LAT {
         for c in counts_for(n) {
             let mut sources = vec![];
-            for hint in [Hint::Exact, Hint::Lower0, Hint::NoUpper, Hint::Unknown, Hint::Loose, Hint::LieLow, Hint::LieHigh, Hint::Fixed(n), Hint::Fixed(n + 1), Hint::Fixed(n.saturating_sub(1)), Hint::Inverted(n + 2, n.saturating_sub(1)), Hint::Inverted(n + 1, n), Hint::Inverted(n, n.saturating_sub(1)), Hint::Countdown(n), Hint::CountdownExact(n), Hint::Countdown(n + 1)] {
+            for hint in [Hint::Exact, Hint::Lower0, Hint::NoUpper, Hint::Unknown, Hint::Loose, Hint::LieLow, Hint::LieHigh, Hint::Fixed(n), Hint::Fixed(n + 1), Hint::Fixed(n.saturating_sub(1)), Hint::Inverted(n + 2, n.saturating_sub(1)), Hint::Inverted(n + 1, n), Hint::Inverted(n, n.saturating_sub(1)), Hint::Countdown(n), Hint::CountdownExact(n), Hint::Countdown(n + 1), Hint::UpperMax, Hint::LowerUpperMax] {
                 sources.push(Source::Script(hint, 0));
                 if matches!(hint, Hint::Exact | Hint::Unknown | Hint::Fixed(_)) {
                     sources.push(Source::Script(hint, 2));
@@ -268,7 +268,7 @@ fn grid() -> Vec<Case> {
 
 fn random_strategy() -> impl Strategy<Value = Case> {
     let lat = harness::lens::LAT;
-    (0..lat.len(), any::<u16>(), 0usize..16, 0usize..3, 0u8..4, any::<bool>(), 1u32..1_000_000, 0usize..6).prop_map(move |(li, cs, h, after, target, by_ref, base, fx)| {
+    (0..lat.len(), any::<u16>(), 0usize..18, 0usize..3, 0u8..4, any::<bool>(), 1u32..1_000_000, 0usize..6).prop_map(move |(li, cs, h, after, target, by_ref, base, fx)| {
         let n = lat[li];
         let c = match cs % 4 {
             0 => n,
@@ -284,6 +284,8 @@ fn random_strategy() -> impl Strategy<Value = Case> {
             6 => Hint::LieHigh,
             7..=9 => Hint::Fixed((n + fx).saturating_sub(2)),
             13 => Hint::Countdown((n + fx).saturating_sub(2)),
+            16 => Hint::UpperMax,
+            17 => Hint::LowerUpperMax,
             14 | 15 => Hint::CountdownExact((n + fx).saturating_sub(2)),
             _ => Hint::Inverted(n + fx, (n + fx).saturating_sub(1 + fx)),
         };
@@ -320,7 +322,7 @@ pub fn main() {
         Report {
             prop: PROP,
             level: "exploration",
-            rule: "case = (N in the 36-length lattice (to 4096), 24-byte or zero-sized drop-tracked elements, produced count c (every 0..=N+3 for N<=12, else 0,1,N-1,N,N+1,N+3), source, target, by-value or &mut). Sources: a scripted iterator with 16 size_hint behaviours (exact, lower 0, no upper, unknown, loose, lying low, lying high, claiming exactly N / N+1 / N-1 whatever it holds, inconsistent hints whose lower bound exceeds the upper bound, and hints that count down from a claimed total N or N+1 as items are pulled and so report nothing-left after N items whatever the source still holds), fused or yielding again after its first None, and std sources (Range, vec::IntoIter, Chain, Take, Filter) that reach the TrustedLen specialisations. Targets: try_from_iter, from_iter/collect, try_boxed_from_iter, boxed collect. For N<=12 additionally a panic injected into every next() call index of the scripted source. Grid enumerated completely, plus proptest-random cases. \
+            rule: "case = (N in the 36-length lattice (to 4096), 24-byte or zero-sized drop-tracked elements, produced count c (every 0..=N+3 for N<=12, else 0,1,N-1,N,N+1,N+3), source, target, by-value or &mut). Sources: a scripted iterator with 18 size_hint behaviours (upper bound usize::MAX, exact, lower 0, no upper, unknown, loose, lying low, lying high, claiming exactly N / N+1 / N-1 whatever it holds, inconsistent hints whose lower bound exceeds the upper bound, and hints that count down from a claimed total N or N+1 as items are pulled and so report nothing-left after N items whatever the source still holds), fused or yielding again after its first None, and std sources (Range, vec::IntoIter, Chain, Take, Filter) that reach the TrustedLen specialisations. Targets: try_from_iter, from_iter/collect, try_boxed_from_iter, boxed collect. For N<=12 additionally a panic injected into every next() call index of the scripted source. Grid enumerated completely, plus proptest-random cases. \
                    Oracle computed from the script alone: Ok => c = N and element i is the i-th item; truthful and c = N => Ok; c != N or a hint that rules N out => LengthError / 'expected N items' panic; at most N+1 items pulled; never polled after None; every pulled item dropped exactly once on failure and un-pulled items still with the source. \
                    non-trivial = c != N, or an untruthful / inexact hint, or a non-fused source; distinct = distinct case tuples",
             exhaustive: false,
